@@ -673,3 +673,8 @@ func init() {
 		return strings.Join(readChunks(identityMode{}, chunks), " | ")
 	}
 }
+
+func writeWith(rec *recorder, ms []rscp.Message) ([]byte, error) {
+	var m cipher.BlockMode = rec
+	return rscp.Write(&m, ms, true)
+}
